@@ -141,6 +141,10 @@ func (w *recW) Write(p []byte) (int, error) {
 	}
 	w.active--
 	in.mon = in.mon*1099511628211 ^ 7
+	if in.p.writer == "shortcount" {
+		// a destination that reports fewer bytes than it was handed, without an error: still one Write per event
+		return len(p) / 2, nil
+	}
 	return len(p), nil
 }
 
@@ -156,6 +160,9 @@ type inst struct {
 }
 
 var expCache = map[string][]string{}
+
+// aloneMulti: scenarios in which a single event, emitted alone, arrived in more than one Write call.
+var aloneMulti = map[string]string{}
 var expMu sync.Mutex
 
 // discardHook discards the events whose message is "drop" (the hooks after it still run on the event).
@@ -254,6 +261,10 @@ func expectedWrites(p params, name string) []string {
 			} else {
 				emit(&lgs[t], k, t, i)
 			}
+			if len(in.calls) > 1 {
+				// "exactly one Write/WriteLevel call per emitted event" holds for the chain run alone to begin with
+				aloneMulti[name] = fmt.Sprintf("one %q event emitted alone reached the destination in %d Write calls, want one: %.200q", k, len(in.calls), in.calls)
+			}
 			all = append(all, in.calls...)
 		}
 	}
@@ -327,6 +338,11 @@ func (in *inst) Check(res *mcrt.Result) []explore.Violation {
 	for _, m := range in.mutated {
 		add("the slice handed to the writer changed before Write returned: %s", m)
 	}
+	expMu.Lock()
+	for _, m := range aloneMulti {
+		add("%s", m)
+	}
+	expMu.Unlock()
 	if in.overlap && strings.HasPrefix(in.p.writer, "sync") {
 		add("a writer wrapped in SyncWriter saw two overlapping calls")
 	}
@@ -419,6 +435,8 @@ func plans(tier string) []drv.Plan {
 	add("shared/console/tiny,nested;tiny", b2)
 	add("children/console/big;tiny", b3)
 	add("shared/consoleorder/tiny,nested;tiny", b2)
+	add("shared/shortcount/tiny,tiny;tiny", b2)
+	add("children/shortcount/tiny;nested", b2)
 	add("shared/consolefail/tiny,tiny;tiny", b2)
 	add("children/consolefail/tiny;nested", b2)
 	add("shared/plain/huge;tiny,tiny", 1)
